@@ -5,6 +5,8 @@ A *case* is
      "tasks": [{"at": k,              # spawned just before run_for call number k (0 = before the first)
                 "se": ev | None,      # event emitted on the first poll (before the first sleep)
                 "ops": [[d, ev|None], ...]}],   # d >= 0: sleep_cycles(d); d == -1: bare Poll::Pending
+                                      # [d, ev|None, rep]: the op rep times in a row (compact notation for long
+                                      # chains), the event belongs to the last repetition; expand_tasks() unfolds it
      "budgets": [b0, b1, ...],        # explicit run_for budgets
      "tail_budget": B, "tail_max": N} # afterwards run_for(B) until all tasks finished and MaxCycles (<= N calls)
 
@@ -24,6 +26,34 @@ from typing import Any, Dict, List, Optional, Tuple
 from .core import HarnessError, Violation
 
 YIELD = -1
+LONG_STEPS = 64  # a wake-up that goes wrong this deep into a script gets its own fingerprint
+
+
+def expand_tasks(tasks: List[Dict[str, Any]]) -> List[Dict[str, Any]]:
+    """Unfold the compact [d, ev, rep] notation into plain [d, ev] ops (same expansion as the Rust adapter)."""
+    if not any(len(o) > 2 for t in tasks for o in t["ops"]):
+        return tasks
+    out = []
+    for t in tasks:
+        ops: List[List[Any]] = []
+        for o in t["ops"]:
+            rep = o[2] if len(o) > 2 else 1
+            if rep >= 1:
+                ops.extend([[o[0], None]] * (rep - 1))
+                ops.append([o[0], o[1]])
+        nt = dict(t)
+        nt["ops"] = ops
+        out.append(nt)
+    return out
+
+
+def expanded(case: Dict[str, Any]) -> Dict[str, Any]:
+    tasks = expand_tasks(case["tasks"])
+    if tasks is case["tasks"]:
+        return case
+    c = dict(case)
+    c["tasks"] = tasks
+    return c
 
 
 # ------------------------------------------------------------------------------------------------
@@ -135,7 +165,8 @@ def check(case: Dict[str, Any], obs: Dict[str, Any], ref: Optional[Dict[str, Any
         return out, ["crash"], False
     _sanity(case, obs)
 
-    tasks = case["tasks"]
+    xcase = expanded(case)  # plain [d, ev] ops; violations keep the compact case
+    tasks = xcase["tasks"]
     ntasks = len(tasks)
     log = obs["log"]
     results = obs["results"]
@@ -165,7 +196,8 @@ def check(case: Dict[str, Any], obs: Dict[str, Any], ref: Optional[Dict[str, Any
             want = ents[j - 1][2] + (1 if d < 0 else d)
             got = ents[j][2]
             if got != want:
-                V("wake-exact", op_kind(d), "resumed earlier than requested" if got < want
+                V("wake-exact", op_kind(d) + (f", {LONG_STEPS} or more steps into a script" if j > LONG_STEPS else ""),
+                  "resumed earlier than requested" if got < want
                   else "resumed later than requested",
                   f"task {i} step {j - 1}: previous resumption at {ents[j - 1][2]}, asked d={d} -> {want}, "
                   f"resumed at {got}; log={log[:24]}")
@@ -330,7 +362,7 @@ def check(case: Dict[str, Any], obs: Dict[str, Any], ref: Optional[Dict[str, Any
 
     # ---- reference scheduler -----------------------------------------------------------------------------
     # (catch-all: only consulted when none of the individually grounded checks above fired)
-    m = model(case, budgets)
+    m = model(xcase, budgets)
     mseq = [(e[0], e[1], e[2]) for e in m["log"]]
     if out:
         pass
@@ -388,12 +420,29 @@ def check(case: Dict[str, Any], obs: Dict[str, Any], ref: Optional[Dict[str, Any
         labels.append("budget:0")
     if clock0:
         labels.append("clock0:nonzero")
+    if xcase is not case:
+        longest = max(len(t["ops"]) for t in tasks)
+        labels.append("long-script:>=1000-steps" if longest >= 1000 else "long-script:<1000-steps")
+        if _longest_same_cycle_run(by_task) > 1000:
+            labels.append("same-cycle-rounds:>1000")
     if any(r[0] is not None and not per_call[k] for k, r in enumerate(results)):
         labels.append("event-from-queue")
     if any(r[0] is None and r[1] == 0 and budgets[k] > 0 and k < len(case.get("budgets", []))
            for k, r in enumerate(results)):
         labels.append("idle-call")
     return out, labels, nt
+
+
+def _longest_same_cycle_run(by_task: List[List[List[int]]]) -> int:
+    best = 0
+    for ents in by_task:
+        run, prev = 0, None
+        for e in ents:
+            run = run + 1 if e[2] == prev else 1
+            prev = e[2]
+            if run > best:
+                best = run
+    return best
 
 
 def _emitters_share_cycle(emitted: List[Tuple[int, int, int]]) -> bool:
